@@ -74,7 +74,9 @@ namespace
             bool equal_deadlines = r.chance(1, 3); // intervals from a tiny set so deadlines collide
             unsigned stall_pm = (unsigned)r.pick<int64_t>({0, 20, 60, 150});
             unsigned script_pm = (unsigned)r.pick<int64_t>({0, 100, 300});
-            p.cfg = {nt};
+            // where on the time axis the run starts: far positive, around zero, negative (signed/unsigned mistakes live there)
+            int64_t origin = r.pick<int64_t>({1000, 1000, 0, -30, -3000, 5});
+            p.cfg = {nt, origin};
             int nops = (int)r.range(5, tier == THOROUGH ? 120 : 60);
             auto interval = [&]() -> int64_t {
                 if (equal_deadlines) return r.pick<int64_t>({1, 2, 4}) * period;
@@ -261,7 +263,9 @@ namespace
             model.assign(n, Model());
             script.assign(n, Script());
             for (int i = 0; i < n; i++) tim.emplace_back(new SimTimer(this, i));
-            now = 1000;
+            int64_t origin = p.c(1, 1000) % 100000;
+            now = origin;
+            if (origin <= 0) probe("time_origin_not_positive");
             callbacks = 0;
             pending_changed = false;
             in_exec = false;
@@ -346,7 +350,7 @@ namespace
                 check_state("teardown");
             }
             res.steps = t.nev;
-            res.simtime = (uint64_t)(now - 1000);
+            res.simtime = (uint64_t)(now - origin);
             res.nontrivial = catchup || pending_changed;
             stat("callbacks", callbacks);
             stat("sim_ticks", res.simtime);
@@ -367,7 +371,7 @@ namespace
         {
             Plan p;
             int nt = (int)r.range(1, 4);
-            p.cfg = {nt};
+            p.cfg = {nt, r.pick<int64_t>({500, 0, -25, -2000, 3})};
             int nops = (int)r.range(5, tier == THOROUGH ? 150 : 60);
             for (int i = 0; i < nops; i++)
             {
@@ -390,7 +394,9 @@ namespace
             int n = (int)mod(p.c(0) - 1, 4) + 1;
             std::vector<stimer_head> st(n);
             std::vector<Model> m(n);
-            long now = 500;
+            long origin = (long)(p.c(1, 500) % 100000);
+            long now = origin;
+            if (origin <= 0) probe("time_origin_not_positive");
             for (int i = 0; i < n; i++) stimer_init(&st[i], now, 1);
             for (int i = 0; i < n; i++) m[i].start = now, m[i].interval = 1, m[i].planned = false;
             bool periodic_multi = false;
@@ -468,7 +474,7 @@ namespace
                 for (int i = 0; i < n; i++) check(i, "after-op");
             }
             res.nontrivial = periodic_multi;
-            res.simtime = (uint64_t)(now - 500);
+            res.simtime = (uint64_t)(now - origin);
             return res;
         }
     };
